@@ -13,10 +13,13 @@
    beyond the hint stream's own offset stands for that offset plus the hint stream's length.
 
    The result is a list of failed clauses (code, a, b); lin_ok = no failed clause.
-   Codes 112 / 135 are clauses 12 / 35 where the offending object is an object stream (the needed
-   object is one of its members); 212 is clause 12 where the object is also reached from /Outlines
-   (not opened with the document); 235 is clause 35 where the object is also reached from a catalog
-   key other than /Pages or from a trailer key. *)
+   Variants of clauses 12 / 35 by the kinds of users of the offending object: 212 = also reached from
+   /Outlines (not opened with the document), 112 = the same for an object stream holding the needed
+   object, 312 = an object stream without outline users; 235 = also reached from a catalog key other
+   than /Pages and the open-document keys or from a trailer key, 135 = the same for an object stream
+   (which may also hold page tree nodes),
+   335 = an object stream without such users; 412 / 435 = also reached from the /Thumb of the SAME page
+   (first page / later page). *)
 From Coq Require Import String Ascii.
 From QV Require Import Base.Bytes File.StrictSyntax File.Inflate File.ReadStrict Lin.HintTypes.
 Local Open Scope N_scope.
@@ -39,6 +42,9 @@ Definition afn_Outlines := Eval vm_compute in af_str "Outlines".
 Definition afn_PageMode := Eval vm_compute in af_str "PageMode".
 Definition afn_UseOutlines := Eval vm_compute in af_str "UseOutlines".
 Definition afn_Encrypt := Eval vm_compute in af_str "Encrypt".
+(* catalog entries needed when the document is opened (F.3.3, part 4) *)
+Definition afn_open_document_keys : list (list N) :=
+  Eval vm_compute in map af_str ["ViewerPreferences"; "PageMode"; "Threads"; "OpenAction"; "AcroForm"]%string.
 
 (* ------------------------------------------------------------------ bit fields, MSB first *)
 Fixpoint af_byte_bits (n : nat) (b : N) : list bool :=
@@ -359,7 +365,9 @@ Section HintClauses.
   Variable pages : list N.                (* page objects *)
   Variable needs : list (list N).         (* per page: containers of what it needs *)
   Variable outline_set : list N.          (* containers of what /Outlines reaches *)
-  Variable doclevel_set : list N.         (* containers of what catalog keys other than /Pages, and trailer keys, reach *)
+  Variable doclevel_set : list N.         (* containers of what catalog keys other than /Pages and the open-document keys, and trailer keys, reach *)
+  Variable thumb_sets : list (list N).    (* per page: containers of what the page's own /Thumb reaches *)
+  Variable pagestree_set : list N.        (* containers of the page tree nodes (catalog /Pages, pages not entered) *)
   Variable use_outlines : bool.
   Variable first_page_obj_off : N.
 
@@ -410,8 +418,10 @@ Section HintClauses.
                                       match af_find objs c with
                                       | Some o => match af_off o with
                                                   | Some a => af_when (first_page_obj_off <=? a)
-                                                                (af_err (if af_has_type n_ObjStm (so_val o) then 135
-                                                                         else if af_mem c doclevel_set then 235 else 35) i c)
+                                                                (af_err (if af_has_type n_ObjStm (so_val o)
+                                                                         then (if af_mem c doclevel_set || af_mem c pagestree_set then 135 else 335)
+                                                                         else if af_mem c doclevel_set then 235
+                                                                         else if af_mem c (nth (N.to_nat i) thumb_sets []) then 435 else 35) i c)
                                                   | None => []
                                                   end
                                       | None => []
@@ -613,12 +623,24 @@ Definition lin_check (file : list N) : af_report :=
                                   end in
                       let use_outl := match dict_get catd afn_PageMode with Some (SpName m) => beq m afn_UseOutlines | _ => false end in
                       let doclevel := af_dedup (
-                                        flat_map (fun kv => if beq (fst kv) afn_Pages then [] else cont (af_closure fuel objs (af_refs (snd kv)) [])) catd ++
+                                        flat_map (fun kv => if beq (fst kv) afn_Pages || existsb (beq (fst kv)) afn_open_document_keys then []
+                                                            else cont (af_closure fuel objs (af_refs (snd kv)) [])) catd ++
                                         flat_map (fun kv => if beq (fst kv) n_Root then [] else cont (af_closure fuel objs (af_refs (snd kv)) [])) (sf_trailer sf)) in
+                      let thumbs := (map (fun p => match af_find objs p with
+                                                                 | Some o => match so_val o with
+                                                                             | SpDict pd => match dict_get pd afn_Thumb with
+                                                                                            | Some v => cont (af_closure fuel objs (af_refs v) [])
+                                                                                            | None => [] end
+                                                                             | _ => [] end
+                                                                 | None => [] end) (match pages with Some ps => ps | None => [] end)) in
+                      let thumb0 := hd [] thumbs in
+                      let ptree := match dict_get catd afn_Pages with Some v => cont (af_closure fuel objs (af_refs v) []) | None => [] end in
                       let e12 := flat_map (fun c => match af_find objs c with
                                                     | Some o => match af_off o with
-                                                                | Some a => af_when (E <=? a) (af_err (if af_has_type n_ObjStm (so_val o) then 112
-                                                                                                       else if af_mem c outl && negb use_outl then 212 else 12) c a)
+                                                                | Some a => af_when (E <=? a) (af_err (if af_mem c outl && negb use_outl
+                                                                                                       then (if af_has_type n_ObjStm (so_val o) then 112 else 212)
+                                                                                                       else if af_has_type n_ObjStm (so_val o) then 312
+                                                                                                       else if af_mem c thumb0 then 412 else 12) c a)
                                                                 | None => [] end
                                                     | None => [] end) (hd [] needs) in
                       (* hint tables *)
@@ -638,7 +660,7 @@ Definition lin_check (file : list N) : af_report :=
                                   | None => mk (base ++ af_err 21 0 0) n78 data (hS, match Oo with Some o => o | None => 0 end) None []
                                   | Some (hp, hs, hg, ends) =>
                                       let p0off := match af_find objs p0 with Some o => match af_off o with Some a => a | None => 0 end | None => 0 end in
-                                      let '(herrs, meas) := af_hint_clauses objs h0 h1 ps needs outl doclevel use_outl p0off pO hp hs hg ends hS Oo in
+                                      let '(herrs, meas) := af_hint_clauses objs h0 h1 ps needs outl doclevel thumbs ptree use_outl p0off pO hp hs hg ends hS Oo in
                                       mk (base ++ herrs) n78 data (hS, match Oo with Some o => o | None => 0 end) (Some (hp, hs, hg)) meas
                                   end
                               | _, _ => mk (base ++ af_err 20 0 0) n78 [] (0, 0) None []
